@@ -150,6 +150,24 @@ theorem wakeDispatch_frameA (s : St) : FrameA s (wakeDispatch s) := by
 @[simp] theorem wakeDispatch_termErr (s : St) : (wakeDispatch s).termErr = s.termErr := (wakeDispatch_frameA s).termErr
 @[simp] theorem wakeDispatch_readFused (s : St) : (wakeDispatch s).readFused = s.readFused := (wakeDispatch_frameA s).readFused
 @[simp] theorem wakeDispatch_tObs (s : St) : (wakeDispatch s).obs.filter isT = s.obs.filter isT := (wakeDispatch_frameA s).tobs
+/-! `wakeDispatch` only sets `dWoken` and emits a `wake` (needed since `removeTimer` / `insertRequest` self-wake). -/
+@[simp] theorem wakeDispatch_nextHandle (s : St) : (wakeDispatch s).nextHandle = s.nextHandle := by unfold wakeDispatch; split <;> rfl
+@[simp] theorem wakeDispatch_nextId (s : St) : (wakeDispatch s).nextId = s.nextId := by unfold wakeDispatch; split <;> rfl
+@[simp] theorem wakeDispatch_nextFresh (s : St) : (wakeDispatch s).nextFresh = s.nextFresh := by unfold wakeDispatch; split <;> rfl
+@[simp] theorem wakeDispatch_calls (s : St) : (wakeDispatch s).calls = s.calls := by unfold wakeDispatch; split <;> rfl
+@[simp] theorem wakeDispatch_pq (s : St) : (wakeDispatch s).pq = s.pq := by unfold wakeDispatch; split <;> rfl
+@[simp] theorem wakeDispatch_pqAvail (s : St) : (wakeDispatch s).pqAvail = s.pqAvail := by unfold wakeDispatch; split <;> rfl
+@[simp] theorem wakeDispatch_pqWaiters (s : St) : (wakeDispatch s).pqWaiters = s.pqWaiters := by unfold wakeDispatch; split <;> rfl
+@[simp] theorem wakeDispatch_pqAssigned (s : St) : (wakeDispatch s).pqAssigned = s.pqAssigned := by unfold wakeDispatch; split <;> rfl
+@[simp] theorem wakeDispatch_pqClosed (s : St) : (wakeDispatch s).pqClosed = s.pqClosed := by unfold wakeDispatch; split <;> rfl
+@[simp] theorem wakeDispatch_pqRxWaker (s : St) : (wakeDispatch s).pqRxWaker = s.pqRxWaker := by unfold wakeDispatch; split <;> rfl
+@[simp] theorem wakeDispatch_cq (s : St) : (wakeDispatch s).cq = s.cq := by unfold wakeDispatch; split <;> rfl
+@[simp] theorem wakeDispatch_cqRxWaker (s : St) : (wakeDispatch s).cqRxWaker = s.cqRxWaker := by unfold wakeDispatch; split <;> rfl
+@[simp] theorem wakeDispatch_inflight (s : St) : (wakeDispatch s).inflight = s.inflight := by unfold wakeDispatch; split <;> rfl
+@[simp] theorem wakeDispatch_timers (s : St) : (wakeDispatch s).timers = s.timers := by unfold wakeDispatch; split <;> rfl
+@[simp] theorem wakeDispatch_done (s : St) : (wakeDispatch s).done = s.done := by unfold wakeDispatch; split <;> rfl
+@[simp] theorem wakeDispatch_dDropped (s : St) : (wakeDispatch s).dDropped = s.dDropped := by unfold wakeDispatch; split <;> rfl
+@[simp] theorem wakeDispatch_poisoned (s : St) : (wakeDispatch s).poisoned = s.poisoned := by unfold wakeDispatch; split <;> rfl
 
 theorem updCall_frameA (s : St) (cid : Nat) (f : Call → Call) : FrameA s (updCall s cid f) := by
   unfold updCall; frameA_rfl
@@ -291,7 +309,9 @@ theorem cqRecv_frameA (s : St) : FrameA s (cqRecv s).1 := by
 
 theorem removeTimer_frameA (s : St) (key : Nat) : FrameA s (removeTimer s key) := by
   unfold removeTimer; split
-  · frameA_rfl
+  · simp only; split
+    · exact .trans (by frameA_rfl) (wakeDispatch_frameA _)
+    · frameA_rfl
   · exact .trans (by frameA_rfl) (emit_frameA _ _ rfl)
 @[simp] theorem removeTimer_k (s : St) (key : Nat) : (removeTimer s key).k = s.k := (removeTimer_frameA s key).k
 @[simp] theorem removeTimer_maxInFlight (s : St) (key : Nat) : (removeTimer s key).maxInFlight = s.maxInFlight := (removeTimer_frameA s key).maxInFlight
@@ -334,7 +354,9 @@ theorem insertRequest_frameA {s s' : St} {now : Nat} {r : DReq} (h : insertReque
   · cases h; exact .trans (by frameA_rfl) (emit_frameA _ _ rfl)
   · split at h
     · cases h; exact .trans (by frameA_rfl) (emit_frameA _ _ rfl)
-    · cases h; frameA_rfl
+    · cases h; split
+      · exact .trans (by frameA_rfl) (wakeDispatch_frameA _)
+      · frameA_rfl
 
 theorem nextRequestLoop_frameA (fuel : Nat) (s : St) : FrameA s (nextRequestLoop fuel s).1 := by
   induction fuel generalizing s with
@@ -1202,7 +1224,9 @@ theorem cqRecv_cq_le (s : St) : ((cqRecv s).1).cq.length ≤ s.cq.length := (cqR
 
 theorem removeTimer_frameD (s : St) (key : Nat) : FrameD s (removeTimer s key) := by
   unfold removeTimer; split
-  · frameD_rfl
+  · simp only; split
+    · exact .trans (by frameD_rfl) (wakeDispatch_frameD _)
+    · frameD_rfl
   · exact .trans (by frameD_rfl) (emit_frameD _ _)
 @[simp] theorem removeTimer_handles (s : St) (key : Nat) : (removeTimer s key).handles = s.handles := (removeTimer_frameD s key).handles
 @[simp] theorem removeTimer_sigs (s : St) (key : Nat) : (removeTimer s key).calls.map callSig = s.calls.map callSig := (removeTimer_frameD s key).sigs
@@ -1236,7 +1260,9 @@ theorem insertRequest_frameD {s s' : St} {now : Nat} {r : DReq} (h : insertReque
   · cases h; exact .trans (by frameD_rfl) (emit_frameD _ _)
   · split at h
     · cases h; exact .trans (by frameD_rfl) (emit_frameD _ _)
-    · cases h; frameD_rfl
+    · cases h; split
+      · exact .trans (by frameD_rfl) (wakeDispatch_frameD _)
+      · frameD_rfl
 
 /-! transport calls -/
 
